@@ -576,6 +576,10 @@ class SCML_Supervised(_BaseSCML, TransformerMixin):
     done at two scales `k={10,20}` if `n_feature < 50` or else `k={20,50}`.
     """
 
+    # points with a negative label are unlabeled: they take no part
+    labeled = np.asarray(y) >= 0
+    X, y = X[labeled], np.asarray(y)[labeled]
+
     labels, class_count = np.unique(y, return_counts=True)
     n_class = len(labels)
 
